@@ -351,6 +351,8 @@ enum Place {
 }
 
 struct Run {
+	/// C03 oracle bookkeeping (see `LifeDue` at the end of the file)
+	life: LifeDue,
 	ssound: Box<dyn Sound>,
 	shandle: StaticSoundHandle,
 	tsound: Option<Box<dyn Sound>>,
@@ -520,6 +522,7 @@ fn make(tok: &[&str], ids: &Ids) -> Result<Run, String> {
 		slice_start,
 		comparable: matches!(r0, Some(x) if x >= 0.0 && !x.is_sign_negative()),
 		max_rate: r0.map(|x| x.abs()).unwrap_or(0.0),
+		life: LifeDue::default(),
 		pushed: 1.0,
 		popped_ub: 0.0,
 		flag_set: false,
@@ -675,6 +678,7 @@ fn exec(case: &[String], out: &mut Out) {
 							r.place = Place::Unloaded;
 						} else {
 							s.on_start_processing();
+							r.life.read();
 						}
 					}
 				}
@@ -692,6 +696,9 @@ fn exec(case: &[String], out: &mut Out) {
 					let t_state_before = r.thandle.as_ref().map(|h| state_num(h.state()));
 					let mut tbuf = vec![Frame::from_mono(f32::from_bits(0x7fc0_4321)); len];
 					s.process(&mut tbuf, dt, &info);
+					if let Some(what) = r.life.processed(len, dt, r.thandle.as_ref().map(|h| h.state())) {
+						out.oracle_fail("stream_fade_step_completes_with_its_tween", format!("{} :: {}", l, what));
+					}
 					let same = sbuf.iter().zip(tbuf.iter()).all(|(a, b)| {
 						a.left.to_bits() == b.left.to_bits() && a.right.to_bits() == b.right.to_bits()
 					});
@@ -1046,6 +1053,9 @@ fn exec(case: &[String], out: &mut Out) {
 				}
 				if matches!(tok[0], "vol" | "pan" | "pause" | "resume" | "stop") {
 					r.walk = false;
+				}
+				if r.thandle.is_some() {
+					r.life.command(&tok);
 				}
 				if !matches!(tok[0], "seekto" | "seekby") {
 					r.c18 = None;
@@ -2220,3 +2230,65 @@ pub fn gen_decthread(rng: &mut Rng, n: usize, thorough: bool, stats: &mut Stats)
 
 #[allow(dead_code)]
 fn unused(_: EndPosition, _: Region) {}
+
+/// C03 "each fade-driven step completes when its tween completes (to within one callback)", for the streaming
+/// sound and whatever its decoder does - in particular while the sound is starved of decoded frames: a `pause`
+/// (`stop`) that is the only kind of life-cycle command read by an `on_start_processing`, with an immediate or
+/// delayed tween, has to leave the handle at Paused (Stopped) once the sound has been processed for the tween's
+/// audio time. The delay is counted down in whole `process` calls and the call in which it runs out does not count
+/// towards the fade, so the fade has certainly lasted (time processed - delay - longest call); one microsecond covers
+/// the nanosecond rounding of the countdown. Checked from the call AFTER that one on ("to within one callback"),
+/// until the next life-cycle command is read. A sound that runs out, fails or loses its clock in the meantime is
+/// Stopped, which is final: accepted in place of Paused.
+#[derive(Default)]
+struct LifeDue {
+	/// life-cycle commands written since the last `on_start_processing`: (kind, delay + duration of a tween that can be followed)
+	written: Vec<(String, Option<f64>)>,
+	/// (target, audio time needed, processed so far, longest call)
+	inflight: Option<(PlaybackState, f64, f64, f64)>,
+	due: Option<PlaybackState>,
+}
+impl LifeDue {
+	fn command(&mut self, tok: &[&str]) {
+		let tween = match tok[0] {
+			"pause" | "stop" => tok[1],
+			"resume" => tok[2],
+			_ => return,
+		};
+		let p: Vec<&str> = tween.split(';').collect();
+		let delay = if p[0] == "imm" { Some(0.0) } else { p[0].strip_prefix("del:").map(|d| pu(d) as f64 * 1e-9) };
+		self.written.push((tok[0].to_string(), delay.map(|d| d + pu(p[1]) as f64 * 1e-9)));
+	}
+	fn read(&mut self) {
+		if self.written.is_empty() {
+			return;
+		}
+		self.inflight = None;
+		self.due = None;
+		let kind = self.written[0].0.clone();
+		if self.written.iter().all(|w| w.0 == kind) && kind != "resume" {
+			if let Some(need) = self.written.last().unwrap().1 {
+				let target = if kind == "stop" { PlaybackState::Stopped } else { PlaybackState::Paused };
+				self.inflight = Some((target, need, 0.0, 0.0));
+			}
+		}
+		self.written.clear();
+	}
+	fn processed(&mut self, len: usize, dt: f64, state: Option<PlaybackState>) -> Option<String> {
+		if let (Some(target), Some(state)) = (self.due, state) {
+			if state != target && state != PlaybackState::Stopped {
+				self.due = None;
+				return Some(format!("the handle still reports {:?} after the tween's time, documented: {:?}", state, target));
+			}
+		}
+		if let Some((target, need, seen, longest)) = self.inflight.as_mut() {
+			*seen += len as f64 * dt;
+			*longest = longest.max(len as f64 * dt);
+			if *seen - *longest >= *need + 1e-6 {
+				self.due = Some(*target);
+				self.inflight = None;
+			}
+		}
+		None
+	}
+}
